@@ -57,6 +57,13 @@ func c09RawSpec(s vx.M) map[string]interface{} {
 		if p := vx.Chars(um["prefix"]); p != "" {
 			url["prefix"] = p
 		}
+		// the tokens of the model's regular expression, concatenated, are the expression
+		if re := vx.Chars(um["regex"]); re != "" {
+			url["regex"] = re
+		}
+		if b, _ := um["empty"].(bool); b {
+			url["empty"] = true
+		}
 		rule := map[string]interface{}{"url": url}
 		var ms []interface{}
 		for _, m := range vx.List(um["ms"]) {
